@@ -247,3 +247,105 @@ def r08_1_totality(ctx: Ctx, rule: str = "R08.1", scope: str = "all") -> None:
         )
         f = m.func(DIAGNOSTICS, "Diagnostics.run")
         check_dispatch(ctx, rule, f, [p for p in f.params if p != "cls"][0], concrete_rel)
+
+
+def r_execute_direct_operands(ctx: Ctx, rule: str) -> None:
+    """execute() is a structural recursion: each arm evaluates the node's own operands, one level down."""
+    import ast as _ast
+
+    from ..astutil import call_attr
+    from ..flow import field_access, path_calls
+    from ..props.common import IT_ENGINE, describe
+
+    run, m = ctx.run, ctx.m
+    run.rule(
+        rule,
+        "every recursive execute() call inside the iteration engine's execute() is given a direct operand of the node "
+        "being executed (`<relation>.target`, `.lhs`, `.rhs`), never a node further down and never a name that a loop "
+        "re-binds on its way down: a node that is stepped over (an unevaluated Materialization under a marker, say) never "
+        "gets its payload, and its subtree is evaluated again by every later execution",
+        expected_min=5,
+    )
+    ex = m.func(IT_ENGINE, "Engine.execute")
+    rel = [p for p in ex.params if p != "self"][0]
+    n = 0
+    reported: set[str] = set()
+    for i, p in enumerate(ctx.paths(ex)):
+        for j, c in path_calls(p):
+            if call_attr(c) != "execute" or not c.args:
+                continue
+            n += 1
+            fa = field_access(p, c.args[0], j)
+            inst = f"execute:{src(c)[:40]}:path{i}"
+            if fa is not None and fa[0] == rel and len(fa[1]) == 1 and fa[1][0] in ("target", "lhs", "rhs"):
+                run.ok(rule, inst)
+            else:
+                key = src(c)
+                if key in reported:
+                    continue
+                reported.add(key)
+                what = f"`{rel}.{'.'.join(fa[1])}`" if fa is not None and fa[0] == rel else f"`{src(c.args[0])[:40]}`, which is not an operand of `{rel}`"
+                run.fail(
+                    rule,
+                    inst,
+                    f"`{src(c)[:60]}` evaluates {what}: the nodes in between are stepped over - a Materialization among them is never given its payload (so it is computed again on "
+                    "every execution), and a marker's own arm (Transfer, Select-like extension markers) never runs",
+                    fi=ex,
+                    node=c,
+                    details=describe(p),
+                )
+    # a loop that walks down before executing
+    for loop in [x for x in _ast.walk(ex.node) if isinstance(x, (_ast.While, _ast.For))]:
+        for a in _ast.walk(loop):
+            if isinstance(a, _ast.Assign) and len(a.targets) == 1 and isinstance(a.targets[0], _ast.Name) and isinstance(a.value, _ast.Attribute) and a.value.attr in ("target", "lhs", "rhs"):
+                root = a.value.value
+                if isinstance(root, _ast.Name) and root.id == a.targets[0].id:
+                    n += 1
+                    run.fail(rule, f"execute:loop:{a.targets[0].id}", f"execute() walks down the tree in a loop (`{src(a)}`) instead of recursing node by node: the nodes passed on the way are never dispatched", fi=ex, node=a)
+    if n == 0:
+        raise AnalysisError("execute() no longer calls itself")
+
+
+def r_only_deduplication_merges_rows(ctx: Ctx, rule: str) -> None:
+    """Relations are bags: the one operation that may turn two equal rows into one is Deduplication."""
+    import ast as _ast
+
+    from ..astutil import call_attr
+    from ..flow import path_calls
+    from ..props.common import IT_ENGINE, describe
+
+    run, m = ctx.run, ctx.m
+    run.rule(
+        rule,
+        "in the iteration engine's execute() rows pass through a keyed container (to_mapping, a dict or set built from "
+        "rows) only in the Deduplication arm: any other arm (a projection of already-keyed rows, say) that re-keys its "
+        "rows merges the ones that agree on the key, and a count-preserving operation loses rows",
+        expected_min=5,
+    )
+    ex = m.func(IT_ENGINE, "Engine.execute")
+    n = 0
+    reported: set[str] = set()
+    for i, p in enumerate(ctx.paths(ex)):
+        arms = [src(s.node.pattern).split("(")[0] for s in p.steps if s.kind == "case" and s.value]  # type: ignore[union-attr]
+        n += 1
+        merging = [c for _j, c in path_calls(p) if call_attr(c) in ("to_mapping", "fromkeys") or (isinstance(c.func, _ast.Name) and c.func.id in ("set", "frozenset", "dict") and c.args)]
+        merging += [x for s in p.steps if s.kind in ("stmt", "cond") for x in _ast.walk(s.node) if isinstance(x, (_ast.DictComp, _ast.SetComp))]
+        inst = f"execute:path{i}:{'/'.join(arms) or 'top'}"
+        if merging and "Deduplication" not in arms:
+            key = src(merging[0])
+            if key in reported:
+                continue
+            reported.add(key)
+            run.fail(
+                rule,
+                inst,
+                f"the {'/'.join(arms) or 'top-level'} path of execute() puts rows through `{src(merging[0])[:60]}`: rows that agree on the key are merged, so an operation that must keep every row "
+                "(projection, calculation, selection, chain, slice) returns fewer rows than its target has",
+                fi=ex,
+                node=merging[0],
+                details=describe(p),
+            )
+        else:
+            run.ok(rule, inst)
+    if n == 0:
+        raise AnalysisError("execute() has no paths")
